@@ -536,6 +536,9 @@ let gen_case (toks : string list) : string =
 
 let dispatch (line : string) : string =
   match split ' ' line with
+  | ["L10"; mode; _; _] ->
+    (* C10, lazyproto half: may a string/bytes value handed out share memory with the input? *)
+    if acc_aliases_input (mode = "fast") AString || acc_aliases_input (mode = "fast") ABytes then "unspecified" else "same"
   | "G" :: rest -> gen_case rest
   | "L" :: rest -> lazy_case rest
   | "P" :: rest -> pool_case rest
